@@ -22,6 +22,19 @@ type c04Mut struct {
 	Unit  int     `json:"unit"`  // index among the units of the mutated direction that have this class
 	Rel   float64 `json:"rel"`   // relative position inside the class's byte range [0,1)
 	Param int     `json:"param"` // bit number / byte delta / number of bytes / number of segments
+	// Ext selects the class-aware semantics of c04_ext.go (round 3): swap-next / replay-prev / reflect /
+	// splice act on the byte range of Class (exchange with the next unit's range, overwrite with the
+	// previous unit's / the opposite direction's range, tail splice at the start of the range), Class
+	// "boundary" = the whole unit; bitflip / subst on "boundary" hit the last byte of the unit,
+	// truncate on "boundary" cuts the stream after the unit (TCP) / the datagram at the 72-byte header
+	// boundary + Param (UDP); insert with ToLen > 0 grows the unit to exactly ToLen bytes.
+	Ext   bool `json:"ext,omitempty"`
+	ToLen int  `json:"to_len,omitempty"`
+	// Target (UDP): which datagrams are eligible — "" = first transmissions of data-bearing data
+	// datagrams, "open" = open session request / response, "ack" = pure acks.
+	Target string `json:"target,omitempty"`
+	// PayloadLen > 0: only a unit whose metadata announces exactly this payload length is eligible.
+	PayloadLen int `json:"payload_len,omitempty"`
 }
 
 // c04Unit is one genuine unit with its decoding.
@@ -307,6 +320,13 @@ type c04UDP struct {
 	dgIndex int // simnet index of the mutated datagram
 	mutTime time.Time
 	seqSeen map[uint32]bool // sequence numbers already transmitted in the mutated direction
+	// class-aware kinds (c04_ext.go)
+	prevClass   *c04Unit // previous eligible datagram of the mutated direction that has the class
+	other       *c04Unit // latest datagram of the OPPOSITE direction that has the class
+	otherMaxSeq uint32   // highest sequence number seen in the opposite direction
+	otherSeen   bool
+	held        *c04Unit // swap-next on a byte range: the first unit waits for the next one
+	mutated2    []byte   // … whose mutated form is the second mutated datagram
 }
 
 // c04ObserveWindow: after a datagram was mutated, genuine retransmissions of the same sequence number
@@ -314,22 +334,54 @@ type c04UDP struct {
 // mutated copy (it acknowledges within a few milliseconds if it did).
 const c04ObserveWindow = 300 * time.Millisecond
 
+func (p *c04UDP) eligibleTarget(seg *wire.Segment) bool {
+	switch p.k.Mut.Target {
+	case "open":
+		return seg.Proto == wire.OpenSessionRequest || seg.Proto == wire.OpenSessionResponse
+	case "ack":
+		return seg.IsAck()
+	}
+	if p.k.Mut.PayloadLen > 0 && int(seg.PayloadLen) != p.k.Mut.PayloadLen {
+		return false
+	}
+	return seg.IsData() && seg.PayloadLen > 0
+}
+
 func (p *c04UDP) plan(d *simnet.Datagram) []simnet.Delivery {
 	p.mu.Lock()
 	defer p.mu.Unlock()
 	c2s := d.To == p.server
-	if c2s != p.k.C2S || p.k.Mut.Kind == "none" {
+	m := p.k.Mut
+	if m.Kind == "none" {
+		return []simnet.Delivery{{}}
+	}
+	if c2s != p.k.C2S && !(m.Kind == "reflect") {
 		return []simnet.Delivery{{}}
 	}
 	seg, err := wire.OpenUDP(d.Data, p.keys)
 	if err != nil {
 		return []simnet.Delivery{{}}
 	}
+	if c2s != p.k.C2S {
+		// the opposite direction: remember how far its numbering got (a reflected datagram can only be
+		// taken for new data while its sequence number is ahead of that) and its latest unit that has
+		// the class (source of the reflected byte range)
+		if seg.IsData() || seg.IsSession() {
+			if !p.otherSeen || seg.Seq > p.otherMaxSeq {
+				p.otherMaxSeq = seg.Seq
+			}
+			p.otherSeen = true
+		}
+		ou := &c04Unit{Raw: append([]byte(nil), d.Data...), Seg: seg, HasNonce: true}
+		if ou.has(m.Class) && seg.IsData() {
+			p.other = ou
+		}
+		return []simnet.Delivery{{}}
+	}
 	u := &c04Unit{Raw: append([]byte(nil), d.Data...), Seg: seg, HasNonce: true, Index: p.index}
 	p.index++
-	m := p.k.Mut
 	if p.applied && p.mutated != nil && p.target != nil && seg.SessionID == p.target.Seg.SessionID && seg.Seq == p.target.Seg.Seq &&
-		seg.IsData() && time.Since(p.mutTime) < c04ObserveWindow {
+		(seg.IsData() || seg.IsSession()) && seg.Proto == p.target.Seg.Proto && time.Since(p.mutTime) < c04ObserveWindow {
 		d.Fate = "held-for-observation"
 		return nil
 	}
@@ -337,17 +389,47 @@ func (p *c04UDP) plan(d *simnet.Datagram) []simnet.Delivery {
 		if seg.PayloadLen > 0 {
 			p.prev = u
 		}
+		if p.eligibleTarget(seg) && u.has(m.Class) {
+			p.prevClass = u
+		}
 	}()
 	if p.seqSeen == nil {
 		p.seqSeen = map[uint32]bool{}
 	}
-	firstTx := !p.seqSeen[seg.Seq]
-	if seg.IsData() {
+	firstTx := !p.seqSeen[seg.Seq] || seg.IsAck()
+	if seg.IsData() || seg.IsSession() {
 		p.seqSeen[seg.Seq] = true
 	}
-	// the campaign targets first transmissions of data-bearing datagrams after the handshake (its
-	// loss costs seconds)
-	eligible := !p.applied && firstTx && u.has(m.Class) && (seg.IsData() && seg.PayloadLen > 0) && (m.Kind != "splice" && m.Kind != "replay-prev" || p.prev != nil)
+	if p.held != nil && m.Ext && m.Kind == "swap-next" {
+		// the second unit of a byte-range swap
+		if !(p.eligibleTarget(seg) && u.has(m.Class)) {
+			return []simnet.Delivery{{}}
+		}
+		h := p.held
+		p.held = nil
+		a, b := c04SwapRange(h, u, m.Class)
+		p.mutated, p.mutated2 = a, b
+		d.Fate = "mutated:swap-next/" + m.Class
+		return []simnet.Delivery{{Data: a}, {Data: b}}
+	}
+	// the campaign targets first transmissions (a loss costs a retransmission timeout), by default of
+	// data-bearing datagrams after the handshake
+	eligible := !p.applied && firstTx && u.has(m.Class) && p.eligibleTarget(seg)
+	if !m.Ext {
+		eligible = eligible && (m.Kind != "splice" && m.Kind != "replay-prev" || p.prev != nil)
+	} else {
+		switch m.Kind {
+		case "splice", "replay-prev":
+			eligible = eligible && p.prevClass != nil
+		case "reflect":
+			eligible = eligible && (m.Class == "boundary" || p.other != nil)
+		}
+	}
+	if m.Kind == "reflect" && m.Ext && m.Class == "boundary" {
+		// whole-datagram reflection: only a datagram whose sequence number the sender has not yet
+		// received from its peer can be mistaken for the peer's data
+		eligible = eligible && p.otherSeen && seg.Seq > p.otherMaxSeq+1
+	}
 	if !eligible {
 		return []simnet.Delivery{{}}
 	}
@@ -360,6 +442,9 @@ func (p *c04UDP) plan(d *simnet.Datagram) []simnet.Delivery {
 	p.dgIndex = d.Index
 	p.mutTime = time.Now()
 	d.Fate = "mutated:" + m.Kind + "/" + m.Class
+	if m.Ext {
+		return p.planExt(u, d)
+	}
 	switch m.Kind {
 	case "swap-next":
 		return []simnet.Delivery{{Delay: 25 * time.Millisecond}}
